@@ -722,7 +722,7 @@ def check_ram_second_writer(fails_out):
     except Exception as e:
         fails_out.append({"case": "C04-ram-second-writer", "detail": "first writer's commit failed: %s: %s" % (type(e).__name__, e), "corpus": None})
         return
-    t.join(5)
+    t.join(60)
     with ix.searcher() as s_:
         ids = sorted(s_.stored_fields(dn)["id"] for dn in s_.reader().all_doc_ids())
     if ids != ["one", "two"] or got.get("error"):
@@ -994,7 +994,7 @@ def check_async_deferred(fails_out):
             aw.update_document(id="b2", path="/p/b2", body="delta", tag="green")
             aw.commit(**kwargs)
             blocker.commit(merge=False)
-            aw.join(20)
+            aw.join(60)
             if aw.is_alive():
                 fails_out.append({"case": "C04-async-deferred", "detail": "deferred AsyncWriter (%s) did not finish" % label, "corpus": None})
                 continue
